@@ -296,6 +296,9 @@ pub fn gen_cfg(id: &str, tier: Tier, variant: u64) -> GenCfg {
         "C12" => {
             g.weights.consume = 3;
             g.weights.unique_root = 5;
+            // action scripts: run by destructors and, in a quarter of the cases, by
+            // the payload's Clone inside make_mut
+            g.dact_pct = 25;
         }
         "C14" => {
             g.weights.unadopt = 12;
@@ -325,6 +328,8 @@ pub fn world_cfg(id: &str, mode: Mode) -> Cfg {
         strict_loopback: false,
         shallow_clone: false,
         clone_panics: 0,
+        clone_reentrant: false,
+        default_ctor: 0,
     }
 }
 
